@@ -1,5 +1,6 @@
 SPECIFICATION BSpec
 CONSTANTS
+  MaxParked = 2
   LockIds = {a, b, c}
 INVARIANTS
   C14_Balance
